@@ -34,25 +34,32 @@ def fmtFrac (f : Nat) (prec : Nat) : Bytes :=
 
 def micro : Bytes := [194, 181]   -- "µ" U+00B5
 
+def unitNs : Bytes := [110, 115]
+def unitUs : Bytes := [194, 181, 115]   -- "µs", U+00B5
+def unitMs : Bytes := [109, 115]
+def unitS : Bytes := [115]
+def unitM : Bytes := [109]
+def unitH : Bytes := [104]
+
+/-- The seconds group: `<secs%60>[.fraction]s`. -/
+def secGroup (u : Nat) : Bytes := showNat (u / 1000000000 % 60) ++ (fmtFrac (u % 1000000000) 9 ++ (unitS ++ []))
+
+/-- `Duration.format` of the magnitude `u` (nanoseconds). -/
+def durationBody (u : Nat) : Bytes :=
+  if u < 1000000000 then
+    if u = 0 then showNat 0 ++ (unitS ++ [])
+    else if u < 1000 then showNat u ++ (unitNs ++ [])
+    else if u < 1000000 then showNat (u / 1000) ++ (fmtFrac (u % 1000) 3 ++ (unitUs ++ []))
+    else showNat (u / 1000000) ++ (fmtFrac (u % 1000000) 6 ++ (unitMs ++ []))
+  else
+    let mins := u / 1000000000 / 60
+    if mins = 0 then secGroup u
+    else if mins / 60 = 0 then showNat (mins % 60) ++ (unitM ++ secGroup u)
+    else showNat (mins / 60) ++ (unitH ++ (showNat (mins % 60) ++ (unitM ++ secGroup u)))
+
 /-- `time.Duration(d).String()` -/
 def durationString (d : Int) : Bytes :=
-  let u := d.natAbs
-  let body : Bytes :=
-    if u < 1000000000 then
-      if u = 0 then [48, 115]
-      else if u < 1000 then showNat u ++ [110, 115]
-      else if u < 1000000 then showNat (u / 1000) ++ fmtFrac (u % 1000) 3 ++ micro ++ [115]
-      else showNat (u / 1000000) ++ fmtFrac (u % 1000000) 6 ++ [109, 115]
-    else
-      let secs := u / 1000000000
-      let s := showNat (secs % 60) ++ fmtFrac (u % 1000000000) 9 ++ [115]
-      let mins := secs / 60
-      if mins = 0 then s
-      else
-        let m := showNat (mins % 60) ++ [109]
-        let hours := mins / 60
-        if hours = 0 then m ++ s else showNat hours ++ [104] ++ m ++ s
-  if d < 0 then 45 :: body else body
+  if d < 0 then 45 :: durationBody d.natAbs else durationBody d.natAbs
 
 /-! ### time.ParseDuration -/
 
@@ -99,51 +106,64 @@ def unitOf (u : Bytes) : Option Nat :=
   else if u = [104] then some 3600000000000
   else none
 
-/-- The loop over `[0-9]*(\.[0-9]*)?unit` groups; `d` is the sum so far. -/
-def parseLoop (fracMul : Nat → Nat → Nat → Nat) : Nat → Nat → Bytes → Option Nat
-  | 0, _, _ => none
-  | _ + 1, d, [] => some d
-  | fuel + 1, d, c :: cs =>
+/-- `(\.[0-9]*)?` : fraction value, number of digits counted into the scale,
+    the rest, and whether any digit followed the point. -/
+def parseFrac (s1 : Bytes) : Nat × Nat × Bytes × Bool :=
+  match s1 with
+  | 46 :: s2 =>
+    let r := leadingFraction 0 0 false s2
+    (r.1, r.2.1, r.2.2, r.2.2.length != s2.length)
+  | _ => (0, 0, s1, false)
+
+/-- One `[0-9]*(\.[0-9]*)?unit` group: its value in nanoseconds and what
+    follows it (`none` = error). -/
+def parseGroup (fracMul : Nat → Nat → Nat → Nat) (s : Bytes) : Option (Nat × Bytes) :=
+  match s.head? with
+  | none => none
+  | some c =>
     if !(c = 46 || isDigit c) then none else
-    match leadingInt 0 (c :: cs) with
+    match leadingInt 0 s with
     | none => none
     | some (v, s1) =>
-      let pre := s1.length != (c :: cs).length
-      let fr : Nat × Nat × Bytes × Bool :=
-        match s1 with
-        | 46 :: s2 =>
-          let r := leadingFraction 0 0 false s2
-          (r.1, r.2.1, r.2.2, r.2.2.length != s2.length)
-        | _ => (0, 0, s1, false)
-      let f := fr.1
-      let k := fr.2.1
-      let s3 := fr.2.2.1
-      let post := fr.2.2.2
-      if !pre && !post then none else
-      let us := spanUnit s3
+      let pre := s1.length != s.length
+      let fr := parseFrac s1
+      if !pre && !fr.2.2.2 then none else
+      let us := spanUnit fr.2.2.1
       if us.1.isEmpty then none else
       match unitOf us.1 with
       | none => none
       | some unit =>
         if v > two63 / unit then none else
-        let v1 := v * unit
-        let v2 := if f > 0 then v1 + fracMul f unit k else v1
-        if f > 0 && v2 > two63 then none else
-        -- `d += v` in uint64: both can be 2^63, the sum then wraps to 0 (the real code's behaviour)
-        let d' := (d + v2) % (2 * two63)
-        if d' > two63 then none else parseLoop fracMul fuel d' us.2
+        let v2 := if fr.1 > 0 then v * unit + fracMul fr.1 unit fr.2.1 else v * unit
+        if fr.1 > 0 && v2 > two63 then none else some (v2, us.2)
+
+/-- The loop over the groups; `d` is the sum so far (a uint64: two groups of
+    2^63 wrap to 0, which the real code does not notice). -/
+def parseLoop (fracMul : Nat → Nat → Nat → Nat) : Nat → Nat → Bytes → Option Nat
+  | 0, _, _ => none
+  | _ + 1, d, [] => some d
+  | fuel + 1, d, c :: cs =>
+    match parseGroup fracMul (c :: cs) with
+    | none => none
+    | some (v2, rest) =>
+      let d' := (d + v2) % (2 * two63)
+      if d' > two63 then none else parseLoop fracMul fuel d' rest
+
+/-- `[-+]?` -/
+def stripSign : Bytes → Bytes
+  | 45 :: r => r
+  | 43 :: r => r
+  | s => s
 
 /-- `time.ParseDuration` (`none` = error). -/
 def parseDuration (fracMul : Nat → Nat → Nat → Nat) (s : Bytes) : Option Int :=
   let neg := s.head? == some 45
-  let s1 := match s with
-    | 45 :: r => r
-    | 43 :: r => r
-    | _ => s
+  let s1 := stripSign s
   if s1 = [48] then some 0
   else if s1 = [] then none
   else
-    match parseLoop fracMul (s1.length + 1) 0 s1 with
+    -- fuel: every group consumes at least two bytes, so this is never exhausted
+    match parseLoop fracMul (s1.length + 4) 0 s1 with
     | none => none
     | some d =>
       if neg then some (-(d : Int))
